@@ -94,8 +94,13 @@ class VBase : public Oomd::Engine::BasePlugin {
     auto it = args.find("id");
     id_ = it == args.end() ? "?" : it->second;
     auto d = args.find("post_action_delay");
+    bool bad_delay = false;
     if (d != args.end()) {
-      delay_ = std::stoi(d->second);
+      try {
+        delay_ = std::stoi(d->second);
+      } catch (const std::exception&) {
+        bad_delay = true;
+      }
     }
     auto f = args.find("init_fail");
     Json::Value e;
@@ -107,7 +112,7 @@ class VBase : public Oomd::Engine::BasePlugin {
     e["args"] = args_json(args);
     e["cgroup_fs"] = context.cgroupFs();
     ev(e);
-    if (f != args.end()) {
+    if (f != args.end() || bad_delay) {
       return 1;
     }
     return 0;
